@@ -2,7 +2,7 @@
 import itertools
 import z3
 from .. import run as R, clienttable as T, mapmodels as MM, listmodels as LM
-from ..sym import Executor, Node, Ptr, Opaque
+from ..sym import Executor, Node, Ptr, Opaque, to_term
 
 VALIDATION = {}
 
@@ -81,9 +81,110 @@ def _ws_case(core, n, k):
     return ex, ctx, viol, reach_ok, reach_err, abnormal, panics, rids, s
 
 
+def _http_case(http, n, k):
+    """HttpClient::batch_request resumed after the reply arrived: a batch of n (ids s..s+n) answered by k responses with arbitrary u64 ids"""
+    import re
+    from .. import prov as P, models as M, seqmodels as SQ
+    b = R.find_body(http, r"^fn client::<impl at client/http-client/src/client\.rs:[\d: ]+>::batch_request::\{closure#0\}\(_1: Pin<&mut \{async block@client/http-client/src/client\.rs")
+    s = z3.BitVec("batch.start", 64)
+    rids = [z3.BitVec(f"reply{j}.id", 64) for j in range(k)]
+    # which suspended state awaits the service call, and where id_range is kept
+    m = re.match(r"^\(\(\(\*_\d+\) as variant#(\d+)\)\.(\d+): ", b.debug.get("id_range", ""))
+    if not m:
+        raise LookupError("batch_request: no saved id_range - spec needs update")
+    state, fidx = int(m.group(1)), int(m.group(2))
+
+    def m_poll_reply(ex, st, callee, args, dty, site):
+        rps = LM.new_list(ex, [T.response_with_id(ex, T.id_number(ex, rids[j]), f"reply{j}") for j in range(k)], name="rps")
+        return ex.mk_variant("Poll", 0, "Ready", ex.mk_variant("Result", 0, "Ok", rps))
+
+    def m_raw_id(ex, st, callee, args, dty, site):
+        n_ = MM.value_of(ex, args[0])
+        fi = R.field_index("Response", "id")
+        if not isinstance(n_, Node):
+            return NotImplemented
+        return Ptr(ex.child(ex.child(n_, 0, None), fi, None))
+
+    def m_batch_new(ex, st, callee, args, dty, site):
+        return Opaque(z3.Const("BatchResponse", T.OBJ))
+    extra = [(r"run_future_until_timeout<.*\(\)\} as (\w+::)*Future>::poll$", m_poll_reply), (r"^RawResponse::<'_>::id$", m_raw_id),
+             (r"^BatchResponse::<'_, R>::new$", m_batch_new)]
+    ctx = P.make_ctx(http, extra_models=extra + T.CLIENT_MODELS + LM.LIST_MODELS + SQ.TRY_MODELS + list(M.TRACING_MODELS), max_paths=20000, max_visits=n + k + 4)
+    ctx.inline = [M.crate_inliner(http)]
+    ex = Executor(ctx)
+
+    def pre(e, st, body):
+        pin = st["mem"][(0, body.params[0][0])]
+        stn = e.pointee(e.child(pin, 0, "&mut S"))
+        d = Node(stn.name + ".discr", "isize")
+        d.val = z3.BitVecVal(state, 64)
+        stn.kids["discr"] = d
+        rng = T.range_u64(e, s, s + n)
+        kk = Node(f"{stn.name}.variant#{state}:{fidx}", None)
+        e.write(kk, rng)
+        stn.kids[(f"variant#{state}", fidx)] = kk
+    paths = ex.run(b, pre=pre, pc0=[z3.ULE(s, (1 << 64) - 1 - n)])
+    viol_len, viol_pos, reach_ok, reach_err, bad = [], [], [], [], []
+    for p in paths:
+        if p.kind in ("unsupported", "limit", "unwound"):
+            bad.append((p.kind, p.detail))
+            continue
+        if p.kind != "return":
+            continue
+        news = [e for e in p.events if e.kind == "call" and re.search(r"^BatchResponse::<'_, R>::new$", e.callee)]
+        pc = p.cond()
+        if not news:
+            reach_err.append(pc)
+            continue
+        reach_ok.append(pc)
+        vec = news[0].args[1]
+        if not (isinstance(vec, Node) and LM.is_list(vec)):
+            viol_len.append(pc)
+            continue
+        es = LM.elems(vec)
+        if len(es) != n:
+            viol_len.append(pc)
+            continue
+        for i, el in enumerate(es):
+            txt = str(to_term(ex.read_node(el)) if not isinstance(ex.read_node(el), Node) else _deep_str(ex, el))
+            for j in range(k):
+                if re.search(rf"reply{j}\b", txt):
+                    viol_pos.append(z3.And(pc, rids[j] != s + i))
+    return b, ctx, viol_len, viol_pos, reach_ok, reach_err, bad, rids, s
+
+
+def _deep_str(ex, node, depth=0):
+    v = ex.read_node(node)
+    if isinstance(v, Node):
+        return "(" + ",".join(_deep_str(ex, k, depth + 1) for k in v.kids.values()) + ")" if depth < 8 else "..."
+    return str(to_term(v))
+
+
 def obligations(tier, seed):
     core = R.bodies("core")
     out = []
+    http = R.bodies("http-client")
+    for n, k in ([(2, 2), (3, 2), (2, 3)] if tier == "quick" else [(n, k) for n in (1, 2, 3) for k in (0, 1, 2, 3, 4)]):
+        b, ctx, viol_len, viol_pos, reach_ok, reach_err, bad, rids, s = _http_case(http, n, k)
+        name = f"http:batch_request:n={n}:replies={k}"
+        common = dict(bodies=sorted(ctx.encoded_bodies), extra={"models": T.CLIENT_DOC + LM.LIST_DOC + ["the service future is ready with k replies whose ids are arbitrary u64"]})
+        if bad or not (reach_ok or reach_err):
+            out.append(R.Result(engine="mirsym", name=name, kind="kernel", status="unsupported" if bad else "vacuous", detail=str(bad[:1])[:300], bodies=common["bodies"]))
+            continue
+        reach = [z3.Or(*x) for x in (reach_ok, reach_err) if x]
+        r = R.decide(name + ":exactly-n-results", "kernel", z3.Or(*viol_len) if viol_len else z3.BoolVal(False), reach,
+                     desc=f"HTTP client: a batch of {n} that succeeds returns exactly {n} entries, however many responses the reply array holds",
+                     bounds=f"n={n}, reply of {k} responses with any u64 ids", keydetail="", **common)
+        if r["status"] == "violated":
+            r["key"] = "mirsym:c12:http:result-sized-by-reply"
+            r["replay"] = {"scenario": "c12_http_batch", "args": {"n": n, "offsets": list(range(k))}}
+        out.append(r)
+        args = {"start": s}
+        args.update({f"r{j}": rids[j] for j in range(k)})
+        out.append(R.decide(name + ":positional", "kernel", z3.Or(*viol_pos) if viol_pos else z3.BoolVal(False), reach,
+                            desc="HTTP client: an entry of the result is only ever filled with the response whose id is start + its position",
+                            bounds=f"n={n}, {k} reply ids any u64", keydetail="http-positional",
+                            replay=dict(scenario="c12_http_batch", vars=args, fixed={"n": n, "k": k}, region=z3.And(z3.ULE(s, 1000), *[z3.ULE(r_, 2000) for r_ in rids])), **common))
     cases = [(1, 1), (2, 2), (3, 2), (2, 3), (3, 3)] if tier == "quick" else [(n, k) for n in (1, 2, 3, 4) for k in (1, 2, 3, 4, 5)]
     for n, k in cases:
         ex, ctx, viol, reach_ok, reach_err, abnormal, panics, rids, s = _ws_case(core, n, k)
@@ -106,4 +207,10 @@ def obligations(tier, seed):
                             keydetail="positional", replay=dict(scenario="c12_ws_batch", vars=args, fixed={"n": n, "k": k}, region=z3.And(z3.ULE(s, 1000))), **common))
         out.append(R.decide(name + ":no-panic", "kernel", z3.Or(*panics) if panics else z3.BoolVal(False), reach,
                             desc="no overflow / unwrap panic for any ids", bounds="as above", keydetail="panic", **common))
+    seen = set()
+    for r_ in out:
+        if r_.get("status") == "violated" and r_.get("key"):
+            if r_["key"] in seen:
+                r_["status"] = "violated-duplicate"
+            seen.add(r_["key"])
     return out
